@@ -254,7 +254,7 @@ Theorem parse_total : forall s : bytes, parse s <> PPanic /\ parse s <> PFuel.
 Proof.
   intro s. unfold parse. cbv zeta.
   apply (presult_of_post _ (fun _ _ => True)).
-  fold (gc [] s). unfold cur_init.
+  unfold cur_init.
   change (mkCur [] s 0 0) with (gc [] s).
   set (F := S (S (length s))).
   assert (HF : (length s < F)%nat) by (unfold F; lia).
